@@ -1,8 +1,11 @@
 ---- MODULE MC_env ----
 EXTENDS MC
-\* a two-target rule with an undeclared input on its second target, a dependent, and an independent rule
-mcOrd == <<"d", "r", "s", "t1", "t2">>
-mcMenu == << << Rl(<<"d">>, <<"t1">>, "fn", "c2"), Rl(<<"r">>, <<"s">>, "copy", "c3"), MkRule(<<"t1", "t2">>, <<"s">>, "fn", "c1", 0, <<2>>, FALSE, FALSE) >>,
-             << Rl(<<"d">>, <<"t1">>, "fn", "c2"), Rl(<<"r">>, <<"s">>, "copy", "c3"), MkRule(<<"t1", "t2">>, <<"s">>, "fn", "c1", 0, <<1, 2>>, FALSE, FALSE) >> >>
+\* rules with an undeclared input: a two-target rule (both outputs depend on it in the first menu entry, one in the second), a second
+\* single-target one, a dependent and an independent deterministic rule
+mcOrd == <<"d", "r", "s", "t1", "t2", "u">>
+mcMenu == << << Rl(<<"d">>, <<"t1">>, "fn", "c2"), Rl(<<"r">>, <<"s">>, "copy", "c3"), MkRule(<<"t1", "t2">>, <<"s">>, "fn", "c1", 0, <<1, 2>>, FALSE, FALSE),
+                MkRule(<<"u">>, <<"s">>, "fn", "c4", 0, <<1>>, FALSE, FALSE) >>,
+             << Rl(<<"d">>, <<"t1">>, "fn", "c2"), Rl(<<"r">>, <<"s">>, "copy", "c3"), MkRule(<<"t1", "t2">>, <<"s">>, "fn", "c1", 0, <<2>>, FALSE, FALSE),
+                MkRule(<<"u">>, <<"s">>, "fn", "c4", 0, <<1>>, FALSE, FALSE) >> >>
 mcInit == << <<"s", "S0">> >>
 ====
